@@ -314,6 +314,9 @@ func (x *Ctx) Finish(evidencePath string) int {
 	if len(vs) > 0 {
 		cov["violation_witnesses"] = vs
 	}
+	if x.Assume == nil {
+		x.Assume = []string{}
+	}
 	ev := map[string]any{
 		"property_id": x.Prop, "tier": x.Tier, "seed": x.Seed, "level": x.Level,
 		"coverage": cov, "assumptions": x.Assume, "wall_s": time.Since(x.start).Seconds(), "violations": x.nviol,
